@@ -71,7 +71,8 @@ def run(ctx):
     # stream / streamer protocol at mutex granularity
     ctx.tlc_expect_ok("StreamProto", "StreamProto_base.cfg", timeout=900, deadlock=False,
                       overrides={"NEvents": "4"} if thorough else None, name="StreamProto/faithful")
-    for sw, prop in (("M_Recharge", "ChargedRight"), ("M_SignalOnPut", None), ("M_UnblockOnlyIfEmpty", "NoEventLost")):
+    for sw, prop in (("M_Recharge", "ChargedRight"), ("M_SignalOnPut", None), ("M_UnblockOnlyIfEmpty", "NoEventLost"),
+                     ("M_CommitCheckUnderLock", "CommitMonotone")):
         r = ctx.tlc("StreamProto", "StreamProto_base.cfg", timeout=300, deadlock=False, overrides={sw: "FALSE"}, name="StreamProto/mutant-%s" % sw)
         if r.ok:
             raise vlib.Infra("spec mutant %s of StreamProto is not rejected: mechanism vacuous" % sw)
@@ -126,6 +127,29 @@ def run(ctx):
     ctx.extra["lost_wakeup_windows_constructed"] = gate_seen
     ctx.classify(recs)
     ctx.sample(res[0])
+    # 2b. the real stream: two finalizations of one stream in a constructed window (StreamProto: M_CommitCheckUnderLock) and racing
+    out3 = os.path.join(ctx.scratch, "c04_stream.json")
+    rc, txt = ctx.run_bin(binary, "^TestVerifC04Stream$", env={"VERIF_OUT": out3}, timeout=300)
+    if rc != 0 or not os.path.exists(out3):
+        crash = core.classify_crash(txt)
+        if crash is None:
+            raise vlib.Infra("C04 stream harness failed rc=%s:\n%s" % (rc, txt[-3000:]))
+        ctx.classify([crash])
+        return
+    srecs = []
+    sres = json.load(open(out3))
+    by = {}
+    for r in sres:
+        by.setdefault(r["scenario"], []).append(r)
+    for scen, rs in sorted(by.items()):
+        ctx.evaluations += len(rs)
+        bad = [r for r in rs if not r["ok"]]
+        if bad and (len(bad) == len(rs) or scen == "commit-race"):       # constructed windows must reproduce in every trial
+            srecs.append({"kind": "stream_commit_went_back", "scenario": scen, "what": bad[0]["what"], "trials": len(rs), "failed": len(bad)})
+        elif bad:
+            ctx.drift += 1
+    ctx.extra["stream_commit_race_rounds"] = sum(r.get("rounds", 0) for r in sres)
+    ctx.classify(srecs)
     # 3. end-to-end progress on the real pipeline
     win = core.window_scenarios(ctx, 24 if thorough else 8, 9000)
     core.execute_and_validate(ctx, "C04", win, par=1)
